@@ -85,7 +85,12 @@ def h_alloc_zeroed(vm, st, name, argv, ins):
 
 
 def h_dealloc(vm, st, name, argv, ins):
-    p = vm.concretize(st, argv[0])
+    p = argv[0]
+    if not isinstance(p, int):
+        p = z3.simplify(p)
+        p = p.as_long() if z3.is_bv_value(p) else st.known.get(p.get_id(), p)
+    if not isinstance(p, int):
+        return _dealloc_sym(vm, st, p, argv[1], argv[2])
     size = vm.concretize(st, argv[1])
     align = vm.concretize(st, argv[2])
     a = st.mem.lookup(p)
@@ -95,6 +100,32 @@ def h_dealloc(vm, st, name, argv, ins):
         if a.align != align:
             raise Terminal('memerr', "dealloc with align %d of an allocation made with align %d" % (align, a.align))
     st.mem.free(p)
+    return None
+
+
+def _dealloc_sym(vm, st, p, size, align):
+    """dealloc through a symbolic pointer, without forking: every block the pointer can denote is freed
+    under the condition that the pointer denotes it"""
+    vals = vm.values_of(st, p)
+    some = False
+    for v in vals:
+        cond = p == z3.BitVecVal(v, 64)
+        a = st.mem.lookup(v)
+        ok = a is not None and a.base == v and a.kind == 'heap' and a.live
+        if ok and vm.opts.get('check_dealloc_layout', True):
+            sz_ok = (size == a.size) if isinstance(size, int) else (to_bv(size, 64) == a.size)
+            if not (sz_ok is True) and (sz_ok is False or vm.feasible(st, z3.And(cond, z3.Not(sz_ok)))):
+                if vm.feasible(st, cond):
+                    raise Terminal('memerr', "dealloc with a size other than the %d bytes the allocation has" % a.size)
+                continue
+        if not ok:
+            if vm.feasible(st, cond):
+                raise Terminal('memerr', "free of %#x which is not a live heap allocation%s [symbolic pointer]" % (v, st.mem.describe(v)))
+            continue
+        st.mem.free_guarded(v, cond)
+        some = True
+    if not some:
+        raise Terminal('infeasible')
     return None
 
 
